@@ -32,7 +32,7 @@ COMPONENTS = {
              'recording address and unread bytes', 'reference header '
              'encoder/classifier written from the HAProxy spec'],
 }
-BUDGET = {'quick': 12000, 'thorough': 1000000}
+BUDGET = {'quick': 60000, 'thorough': 1000000}
 PROBES = ['v1-tcp4', 'v1-tcp6', 'v1-unknown', 'v2-inet', 'v2-inet6', 'v2-unix',
           'v2-unspec', 'v2-local', 'v2-tlv', 'truncated', 'corrupted',
           'garbage', 'short-reads', 'mixin-auto', 'mixin-v1', 'mixin-v2',
